@@ -189,6 +189,13 @@ def c16_r3(ctx):
                  'Reorder::next sorts only on %s: elements could be released unsorted on the other release trigger' % sorted(ins), None)
 
 
+@rule('C06', 'R6', 'reorder(): the release guard looks at the buffer front, so the buffer must be sorted ascending at every watermark before the guard is evaluated')
+def c06_r6(ctx):
+    """C06.R4 proves `front.timestamp > w` when Watermark(w) is forwarded; that covers every buffered element only if the front is
+    the minimum, i.e. the buffer was sorted (ascending comparator, no skipped sort) after the last push: same obligations as C16.R3"""
+    c16_r3(ctx)
+
+
 def release_guard(ctx, facts, nx, name):
     """Reorder: `return Watermark(w)` only when the front of the buffer is absent or has timestamp > w"""
     rets = q.returns_variant(nx, SE, 'Watermark')
@@ -243,19 +250,93 @@ def c13_r2(ctx):
             found = True
     if not found:
         ctx.viol('%s|no-final-drain' % pr.path, pr.at, 'EventTimeWindowManager::process does not drain all windows on FlushAndRestart / Terminate', None)
-    # only active slots produce output
-    filt = [g for g in facts.closures_of(pr) if any(True for _ in [1])]
-    act = 0
-    for g in facts.closures_of(pr):
-        s2 = q.sym(facts, g)
-        for bi, blk in enumerate(g.blocks):
-            for s in blk['s']:
-                if s['k'] == 'assign' and s['lhs'] == [0] and g.locals[0]['ty'] == 'bool':
-                    if render(strip(s2.rvalue(s['rv']))).endswith('.active'):
-                        act += 1
-    ctx.inst('EventTime::process|active-filter', {'filters on .active': act})
-    if act < 2:
-        ctx.viol('%s|inactive-results' % pr.path, pr.at, 'window results are no longer filtered by `active`: empty windows would produce results', None)
+    # only active slots produce output, and every drained slot is looked at
+    if release_chains(ctx, facts, pr, 'EventTime::process') < 2:
+        raise AnchorMissing('EventTimeWindowManager::process: fewer than two drain(..)->result chains found')
+
+
+ELEMENTWISE = {'filter', 'map', 'filter_map', 'flat_map', 'inspect', 'collect', 'for_each', 'chain', 'into_iter', 'by_ref', 'fold',
+               'extend', 'count', 'peekable', 'cloned', 'copied', 'flatten', 'enumerate'}
+TRUNCATING = {'take_while', 'skip_while', 'take', 'skip', 'step_by', 'nth', 'next', 'last', 'find', 'find_map', 'position', 'rev',
+              'map_while', 'min', 'max', 'min_by_key', 'max_by_key', 'min_by', 'max_by', 'next_back', 'nth_back', 'any', 'all',
+              'scan', 'zip', 'reduce'}
+
+
+def release_chains(ctx, facts, pr, name):
+    """every window slot removed from the manager with `drain` reaches the result through element-wise iterator adapters only
+    (filter on `active`, map to a result): an adapter that stops early, skips or picks drops the remaining drained windows,
+    because `Drain` removes the whole range when it is dropped. Only slots marked `active` (at least one element) may become a
+    result: the guard is either a `filter` stage on `.active` before the stage that builds the WindowResult, or a test of
+    `.active` inside that stage. Returns the number of maximal chains examined."""
+    sym = q.sym(facts, pr)
+    chains = []
+    for bi, t in pr.calls():
+        p = t['callee'].get('path') or ''
+        if not p.startswith('std::iter::Iterator::') or not t['args']:
+            continue
+
+        def clo_of(args):
+            for x in args[1:]:
+                x = strip(x)
+                if x and x[0] == 'agg' and x[1][0] == 'closure':
+                    return x[1][1]
+            return None
+        stages = [(p.rsplit('::', 1)[1], clo_of([None] + [sym.operand(a_) for a_ in t['args'][1:]]))]
+        term = strip(sym.operand(t['args'][0]))
+        root = None
+        while term and term[0] == 'call':
+            if term[1].endswith('::drain'):
+                root = term
+                break
+            if not term[1].startswith('std::iter::Iterator::') or not term[2]:
+                break
+            stages.append((term[1].rsplit('::', 1)[1], clo_of(term[2])))
+            term = strip(term[2][0])
+        if root is None or 'self' not in render(strip(root[2][0])):
+            continue
+        stages.reverse()
+        chains.append((t, root, stages))
+    # keep maximal chains only (a chain that is a proper prefix of another one is the same pipeline seen earlier)
+    maximal = [c for c in chains if not any(o is not c and o[1] == c[1] and len(o[2]) > len(c[2]) and o[2][:len(c[2])] == c[2] for o in chains)]
+    for t, root, stages in maximal:
+        names = [x for x, _ in stages]
+        drained = render(strip(root[2][0]))
+        ctx.inst('%s|release chain|%s' % (name, '.'.join(names)), {'at': t['at'], 'drained': drained, 'adapters': names})
+        bad = [x for x in names if x in TRUNCATING]
+        unk = [x for x in names if x not in TRUNCATING and x not in ELEMENTWISE]
+        if bad:
+            ctx.viol('%s|release-chain|%s' % (pr.path, bad[0]), t['at'],
+                     'windows drained from %s pass through `%s` before they become results: the drained slots it stops at / skips are '
+                     'removed from the manager without producing their result (lost window)' % (drained, bad[0]), None)
+        if unk:
+            ctx.note('%s: release chain uses adapters not classified by the rule: %s' % (name, unk))
+        # the `active` guard
+        guarded = False
+        builds = False
+        for nm, cd in stages:
+            g = facts.fn(cd, required=False) if cd else None
+            if g is None:
+                continue
+            s2 = q.sym(facts, g)
+            if nm == 'filter' and g.locals[0]['ty'] == 'bool':
+                for blk in g.blocks:
+                    for st in blk['s']:
+                        if st['k'] == 'assign' and st['lhs'] == [0] and render(strip(s2.rvalue(st['rv']))).endswith('.active'):
+                            guarded = True
+            aggs = q.aggregates(g, 'renoir::operator::window::WindowResult')
+            if aggs:
+                builds = True
+                for b2, st in aggs:
+                    dnf = q.cond_of_block(facts, g, b2)
+                    own = q.cond_has(dnf, lambda a_: a_[0] == 'bool' and a_[1].endswith('.active') and a_[2] is True)
+                    if not (guarded or own):
+                        ctx.viol('%s|inactive-results' % pr.path, st['at'],
+                                 'a window drained from %s becomes a result without a test of its `active` flag: slots that never '
+                                 'received an element would produce (empty) results' % drained, None)
+                break
+        if not builds:
+            ctx.note('%s: the chain %s does not build WindowResult in a closure the rule can see' % (name, names))
+    return len(maximal)
 
 
 def bool_closures(facts, fn, call_suffix):
